@@ -14,6 +14,29 @@ use agdb::DbId;
 use agdb::DbKeyOrder;
 use agdb::DbKeyValue;
 use agdb::DbValue;
+use agdb::InsertAliasesQuery;
+use agdb::InsertEdgesQuery;
+use agdb::InsertIndexQuery;
+use agdb::InsertNodesQuery;
+use agdb::InsertValuesQuery;
+use agdb::QueryCondition;
+use agdb::QueryConditionData;
+use agdb::QueryIds;
+use agdb::QueryType;
+use agdb::QueryValues;
+use agdb::RemoveAliasesQuery;
+use agdb::RemoveIndexQuery;
+use agdb::RemoveQuery;
+use agdb::RemoveValuesQuery;
+use agdb::SearchQuery;
+use agdb::SelectAliasesQuery;
+use agdb::SelectAllAliasesQuery;
+use agdb::SelectEdgeCountQuery;
+use agdb::SelectIndexesQuery;
+use agdb::SelectKeyCountQuery;
+use agdb::SelectKeysQuery;
+use agdb::SelectNodeCountQuery;
+use agdb::SelectValuesQuery;
 use agdb::KeyValueComparison;
 use agdb::QueryConditionLogic;
 use agdb::QueryConditionModifier;
@@ -33,6 +56,15 @@ use std::time::UNIX_EPOCH;
 
 pub trait Tv: AgdbSerialize + Sized + PartialEq + Debug + 'static {
     fn schema() -> String;
+    /// schema with the recursive `QueryCondition` unrolled `k` times (`schema()` for every type
+    /// that cannot contain a condition): S(0) has `Where` = `v(u64)`, S(k+1) has `Where` = `v(S(k))`
+    fn schema_at(_k: u32) -> String {
+        Self::schema()
+    }
+    /// max nesting of NON-empty `Where` vectors over all conditions inside the value
+    fn cond_depth(&self) -> u32 {
+        0
+    }
     fn to_v(&self) -> V;
     fn from_v(v: &V) -> Option<Self>;
     fn generate(rng: &mut Rng, depth: u32) -> Self;
@@ -513,6 +545,12 @@ impl<T: Tv> Tv for Vec<T> {
     fn schema() -> String {
         format!("v({})", T::schema())
     }
+    fn schema_at(k: u32) -> String {
+        format!("v({})", T::schema_at(k))
+    }
+    fn cond_depth(&self) -> u32 {
+        self.iter().map(|x| x.cond_depth()).max().unwrap_or(0)
+    }
     fn to_v(&self) -> V {
         V::L(self.iter().map(|x| x.to_v()).collect())
     }
@@ -639,8 +677,15 @@ macro_rules! tv_named {
     ($name:ident $(<$g:ident>)? { $($f:ident : $t:ty),* $(,)? }) => {
         impl $(<$g: Tv>)? Tv for $name $(<$g>)? {
             fn schema() -> String {
-                let parts: Vec<String> = vec![$(<$t as Tv>::schema()),*];
+                Self::schema_at(0)
+            }
+            #[allow(unused_variables)]
+            fn schema_at(k: u32) -> String {
+                let parts: Vec<String> = vec![$(<$t as Tv>::schema_at(k)),*];
                 format!("s({})", parts.join(","))
+            }
+            fn cond_depth(&self) -> u32 {
+                0u32 $(.max(self.$f.cond_depth()))*
             }
             fn to_v(&self) -> V {
                 V::S(vec![$(self.$f.to_v()),*])
@@ -671,8 +716,14 @@ macro_rules! tv_tuple {
     ($name:ident ( $($idx:tt : $t:ty),* $(,)? )) => {
         impl Tv for $name {
             fn schema() -> String {
-                let parts: Vec<String> = vec![$(<$t as Tv>::schema()),*];
+                Self::schema_at(0)
+            }
+            fn schema_at(k: u32) -> String {
+                let parts: Vec<String> = vec![$(<$t as Tv>::schema_at(k)),*];
                 format!("s({})", parts.join(","))
+            }
+            fn cond_depth(&self) -> u32 {
+                0u32 $(.max(self.$idx.cond_depth()))*
             }
             fn to_v(&self) -> V {
                 V::S(vec![$(self.$idx.to_v()),*])
@@ -706,9 +757,12 @@ macro_rules! tv_enum {
     (@tov []) => { Vec::<V>::new() };
     (@tov ( $($f:ident : $t:ty),* )) => { vec![$(<$t as Tv>::to_v($f)),*] };
     (@tov { $($f:ident : $t:ty),* }) => { vec![$(<$t as Tv>::to_v($f)),*] };
-    (@schema []) => { String::new() };
-    (@schema ( $($f:ident : $t:ty),* )) => { { let fs: Vec<String> = vec![$(<$t as Tv>::schema()),*]; fs.join(",") } };
-    (@schema { $($f:ident : $t:ty),* }) => { { let fs: Vec<String> = vec![$(<$t as Tv>::schema()),*]; fs.join(",") } };
+    (@schema $k:ident []) => { String::new() };
+    (@schema $k:ident ( $($f:ident : $t:ty),* )) => { { let fs: Vec<String> = vec![$(<$t as Tv>::schema_at($k)),*]; fs.join(",") } };
+    (@schema $k:ident { $($f:ident : $t:ty),* }) => { { let fs: Vec<String> = vec![$(<$t as Tv>::schema_at($k)),*]; fs.join(",") } };
+    (@depth []) => { 0u32 };
+    (@depth ( $($f:ident : $t:ty),* )) => { 0u32 $(.max(<$t as Tv>::cond_depth($f)))* };
+    (@depth { $($f:ident : $t:ty),* }) => { 0u32 $(.max(<$t as Tv>::cond_depth($f)))* };
     (@ctor $n:ident $v:ident [] $it:ident) => { $n::$v };
     (@ctor $n:ident $v:ident ( $($f:ident : $t:ty),* ) $it:ident) => { $n::$v($(<$t as Tv>::from_v($it.next()?)?),*) };
     (@ctor $n:ident $v:ident { $($f:ident : $t:ty),* } $it:ident) => { $n::$v { $($f: <$t as Tv>::from_v($it.next()?)?),* } };
@@ -719,8 +773,17 @@ macro_rules! tv_enum {
     ($name:ident { $($tag:literal $var:ident $shape:tt),* $(,)? }) => {
         impl Tv for $name {
             fn schema() -> String {
-                let vs: Vec<String> = vec![$(tv_enum!(@schema $shape)),*];
+                Self::schema_at(0)
+            }
+            #[allow(unused_variables)]
+            fn schema_at(k: u32) -> String {
+                let vs: Vec<String> = vec![$(tv_enum!(@schema k $shape)),*];
                 format!("e({})", vs.join("|"))
+            }
+            fn cond_depth(&self) -> u32 {
+                match self {
+                    $(tv_enum!(@pat $name $var $shape) => tv_enum!(@depth $shape),)*
+                }
             }
             fn to_v(&self) -> V {
                 match self {
@@ -802,6 +865,164 @@ tv_enum!(Comparison {
 });
 
 tv_named!(KeyValueComparison { key: DbValue, value: Comparison });
+
+// ---------------------------------------------------------------- recursive query types (C20 only)
+//
+// `QueryCondition` is recursive through `QueryConditionData::Where(Vec<QueryCondition>)`. The wire
+// schema has no recursion binder, so a value is described by the schema unrolled to the value's
+// own nesting depth: S(0) = QueryCondition with `Where` = `v(u64)` (placeholder, such vectors are
+// empty), S(k+1) = QueryCondition with `Where` = `v(S(k))`.
+
+fn gen_condition(rng: &mut Rng, budget: u32) -> QueryCondition {
+    QueryCondition {
+        logic: QueryConditionLogic::generate(rng, 2),
+        modifier: QueryConditionModifier::generate(rng, 2),
+        data: gen_condition_data(rng, budget),
+    }
+}
+
+/// `budget` = how many more levels of non-empty `Where` may follow
+fn gen_condition_data(rng: &mut Rng, budget: u32) -> QueryConditionData {
+    // spend the budget with probability 1/2: a Where with 1..3 children one level down
+    if budget > 0 && rng.chance(1, 2) {
+        let n = rng.range(1, 3);
+        return QueryConditionData::Where((0..n).map(|_| gen_condition(rng, budget - 1)).collect());
+    }
+    match rng.below(10) {
+        0 => QueryConditionData::Distance(CountComparison::generate(rng, 2)),
+        1 => QueryConditionData::Edge,
+        2 => QueryConditionData::EdgeCount(CountComparison::generate(rng, 2)),
+        3 => QueryConditionData::EdgeCountFrom(CountComparison::generate(rng, 2)),
+        4 => QueryConditionData::EdgeCountTo(CountComparison::generate(rng, 2)),
+        5 => QueryConditionData::Ids(Vec::<QueryId>::generate(rng, 2)),
+        6 => QueryConditionData::KeyValue(KeyValueComparison::generate(rng, 2)),
+        7 => QueryConditionData::Keys(Vec::<DbValue>::generate(rng, 2)),
+        8 => QueryConditionData::Node,
+        // Where with 0..3 children (always empty once the budget is used up)
+        _ => {
+            let n = if budget == 0 { 0 } else { rng.below(4) };
+            QueryConditionData::Where((0..n).map(|_| gen_condition(rng, budget - 1)).collect())
+        }
+    }
+}
+
+impl Tv for QueryConditionData {
+    fn schema() -> String {
+        Self::schema_at(0)
+    }
+    fn schema_at(k: u32) -> String {
+        let cc = CountComparison::schema();
+        let wh = if k == 0 { "v(u64)".to_string() } else { format!("v({})", QueryCondition::schema_at(k - 1)) };
+        format!(
+            "e({cc}||{cc}|{cc}|{cc}|{}|{}|{}||{wh})",
+            Vec::<QueryId>::schema(),
+            KeyValueComparison::schema(),
+            Vec::<DbValue>::schema()
+        )
+    }
+    fn cond_depth(&self) -> u32 {
+        match self {
+            QueryConditionData::Where(c) if !c.is_empty() => 1 + c.cond_depth(),
+            _ => 0,
+        }
+    }
+    fn to_v(&self) -> V {
+        match self {
+            QueryConditionData::Distance(c) => V::E(0, vec![c.to_v()]),
+            QueryConditionData::Edge => V::E(1, vec![]),
+            QueryConditionData::EdgeCount(c) => V::E(2, vec![c.to_v()]),
+            QueryConditionData::EdgeCountFrom(c) => V::E(3, vec![c.to_v()]),
+            QueryConditionData::EdgeCountTo(c) => V::E(4, vec![c.to_v()]),
+            QueryConditionData::Ids(x) => V::E(5, vec![x.to_v()]),
+            QueryConditionData::KeyValue(x) => V::E(6, vec![x.to_v()]),
+            QueryConditionData::Keys(x) => V::E(7, vec![x.to_v()]),
+            QueryConditionData::Node => V::E(8, vec![]),
+            QueryConditionData::Where(x) => V::E(9, vec![x.to_v()]),
+        }
+    }
+    fn from_v(v: &V) -> Option<Self> {
+        let V::E(tag, fs) = v else { return None };
+        let one = || if fs.len() == 1 { Some(&fs[0]) } else { None };
+        Some(match *tag {
+            0 => QueryConditionData::Distance(CountComparison::from_v(one()?)?),
+            1 if fs.is_empty() => QueryConditionData::Edge,
+            2 => QueryConditionData::EdgeCount(CountComparison::from_v(one()?)?),
+            3 => QueryConditionData::EdgeCountFrom(CountComparison::from_v(one()?)?),
+            4 => QueryConditionData::EdgeCountTo(CountComparison::from_v(one()?)?),
+            5 => QueryConditionData::Ids(Vec::<QueryId>::from_v(one()?)?),
+            6 => QueryConditionData::KeyValue(KeyValueComparison::from_v(one()?)?),
+            7 => QueryConditionData::Keys(Vec::<DbValue>::from_v(one()?)?),
+            8 if fs.is_empty() => QueryConditionData::Node,
+            9 => QueryConditionData::Where(Vec::<QueryCondition>::from_v(one()?)?),
+            _ => return None,
+        })
+    }
+    fn generate(rng: &mut Rng, _depth: u32) -> Self {
+        // nesting budget 0..4, mostly 0..2
+        let budget = match rng.below(100) {
+            0..30 => 0,
+            30..60 => 1,
+            60..82 => 2,
+            82..93 => 3,
+            _ => 4,
+        };
+        gen_condition_data(rng, budget)
+    }
+}
+
+tv_named!(QueryCondition { logic: QueryConditionLogic, modifier: QueryConditionModifier, data: QueryConditionData });
+
+tv_named!(SearchQuery {
+    algorithm: SearchQueryAlgorithm,
+    origin: QueryId,
+    destination: QueryId,
+    limit: u64,
+    offset: u64,
+    order_by: Vec<DbKeyOrder>,
+    conditions: Vec<QueryCondition>,
+});
+
+tv_enum!(QueryIds { 0 Ids(a: Vec<QueryId>), 1 Search(a: SearchQuery) });
+tv_enum!(QueryValues { 0 Single(a: Vec<DbKeyValue>), 1 Multi(a: Vec<Vec<DbKeyValue>>) });
+
+tv_named!(InsertAliasesQuery { ids: QueryIds, aliases: Vec<String> });
+tv_named!(InsertEdgesQuery { from: QueryIds, to: QueryIds, ids: QueryIds, values: QueryValues, each: bool });
+tv_tuple!(InsertIndexQuery(0: DbValue));
+tv_named!(InsertNodesQuery { count: u64, values: QueryValues, aliases: Vec<String>, ids: QueryIds });
+tv_named!(InsertValuesQuery { ids: QueryIds, values: QueryValues });
+tv_tuple!(RemoveAliasesQuery(0: Vec<String>));
+tv_tuple!(RemoveIndexQuery(0: DbValue));
+tv_tuple!(RemoveQuery(0: QueryIds));
+tv_tuple!(RemoveValuesQuery(0: SelectValuesQuery));
+tv_tuple!(SelectAliasesQuery(0: QueryIds));
+tv_named!(SelectAllAliasesQuery {});
+tv_named!(SelectEdgeCountQuery { ids: QueryIds, from: bool, to: bool });
+tv_named!(SelectIndexesQuery {});
+tv_tuple!(SelectKeyCountQuery(0: QueryIds));
+tv_tuple!(SelectKeysQuery(0: QueryIds));
+tv_named!(SelectNodeCountQuery {});
+tv_named!(SelectValuesQuery { keys: Vec<DbValue>, ids: QueryIds });
+
+tv_enum!(QueryType {
+    0 InsertAlias(a: InsertAliasesQuery),
+    1 InsertEdges(a: InsertEdgesQuery),
+    2 InsertIndex(a: InsertIndexQuery),
+    3 InsertNodes(a: InsertNodesQuery),
+    4 InsertValues(a: InsertValuesQuery),
+    5 Remove(a: RemoveQuery),
+    6 RemoveAliases(a: RemoveAliasesQuery),
+    7 RemoveIndex(a: RemoveIndexQuery),
+    8 RemoveValues(a: RemoveValuesQuery),
+    9 Search(a: SearchQuery),
+    10 SelectAliases(a: SelectAliasesQuery),
+    11 SelectAllAliases(a: SelectAllAliasesQuery),
+    12 SelectEdgeCount(a: SelectEdgeCountQuery),
+    13 SelectIndexes(a: SelectIndexesQuery),
+    14 SelectKeys(a: SelectKeysQuery),
+    15 SelectKeyCount(a: SelectKeyCountQuery),
+    16 SelectNodeCount(a: SelectNodeCountQuery),
+    17 SelectValues(a: SelectValuesQuery),
+});
 
 // ---------------------------------------------------------------- harness-defined derived types
 
@@ -972,6 +1193,18 @@ pub struct Driver {
     pub enc: fn(&V) -> Option<Result<EncOut, Fail>>,
     pub dec: fn(&[u8]) -> Outcome,
     pub generate: fn(&mut Rng) -> V,
+    /// query types: only picked by the C20 generator (never by the C21 mutation generator)
+    pub query: bool,
+    /// the schema depends on the value (contains the recursive `QueryCondition`)
+    pub recursive: bool,
+    /// schema with `QueryCondition` unrolled k times (== `schema` unless `recursive`)
+    pub schema_at: fn(u32) -> String,
+    /// condition nesting depth of a value of this type (None: the text is not such a value)
+    pub depth_of: fn(&V) -> Option<u32>,
+}
+
+fn depth_impl<T: Tv>(v: &V) -> Option<u32> {
+    Some(T::from_v(v)?.cond_depth())
 }
 
 fn enc_impl<T: Tv>(v: &V) -> Option<Result<EncOut, Fail>> {
@@ -1007,7 +1240,24 @@ fn gen_impl<T: Tv>(rng: &mut Rng) -> V {
 fn driver<T: Tv>(name: &'static str, lossy: Option<&'static str>) -> Driver {
     let schema = T::schema();
     let sch = Sch::parse(&schema).unwrap_or_else(|| panic!("harness bug: schema of {name} does not parse: {schema}"));
-    Driver { name, schema, sch, lossy, enc: enc_impl::<T>, dec: dec_impl::<T>, generate: gen_impl::<T> }
+    let recursive = T::schema_at(1) != schema;
+    Driver {
+        name,
+        schema,
+        sch,
+        lossy,
+        enc: enc_impl::<T>,
+        dec: dec_impl::<T>,
+        generate: gen_impl::<T>,
+        query: false,
+        recursive,
+        schema_at: T::schema_at,
+        depth_of: depth_impl::<T>,
+    }
+}
+
+fn qdriver<T: Tv>(name: &'static str) -> Driver {
+    Driver { query: true, ..driver::<T>(name, None) }
 }
 
 pub fn registry() -> Vec<Driver> {
@@ -1077,6 +1327,31 @@ pub fn registry() -> Vec<Driver> {
         driver::<Vec<SockThen>>("VecSockThen", None),
         driver::<Vec<Tri>>("VecTri", None),
         driver::<Vec<G<String>>>("VecGString", None),
+        // query types incl. the recursive QueryCondition (C20 generator only; schema unrolled per value)
+        qdriver::<QueryConditionData>("QueryConditionData"),
+        qdriver::<QueryCondition>("QueryCondition"),
+        qdriver::<Vec<QueryCondition>>("VecQueryCondition"),
+        qdriver::<SearchQuery>("SearchQuery"),
+        qdriver::<QueryIds>("QueryIds"),
+        qdriver::<QueryValues>("QueryValues"),
+        qdriver::<InsertAliasesQuery>("InsertAliasesQuery"),
+        qdriver::<InsertEdgesQuery>("InsertEdgesQuery"),
+        qdriver::<InsertIndexQuery>("InsertIndexQuery"),
+        qdriver::<InsertNodesQuery>("InsertNodesQuery"),
+        qdriver::<InsertValuesQuery>("InsertValuesQuery"),
+        qdriver::<RemoveAliasesQuery>("RemoveAliasesQuery"),
+        qdriver::<RemoveIndexQuery>("RemoveIndexQuery"),
+        qdriver::<RemoveQuery>("RemoveQuery"),
+        qdriver::<RemoveValuesQuery>("RemoveValuesQuery"),
+        qdriver::<SelectAliasesQuery>("SelectAliasesQuery"),
+        qdriver::<SelectAllAliasesQuery>("SelectAllAliasesQuery"),
+        qdriver::<SelectEdgeCountQuery>("SelectEdgeCountQuery"),
+        qdriver::<SelectIndexesQuery>("SelectIndexesQuery"),
+        qdriver::<SelectKeyCountQuery>("SelectKeyCountQuery"),
+        qdriver::<SelectKeysQuery>("SelectKeysQuery"),
+        qdriver::<SelectNodeCountQuery>("SelectNodeCountQuery"),
+        qdriver::<SelectValuesQuery>("SelectValuesQuery"),
+        qdriver::<QueryType>("QueryType"),
         // known lossy encodings (only ever chosen with ~1% probability in place of PathBuf / SocketAddr)
         driver::<LossyPath>("PathBufLossy", Some("PathBuf::serialize")),
         driver::<FlowSock>("SocketAddrFlow", Some("SocketAddr::serialize")),
